@@ -122,11 +122,64 @@ class Algebra:
         for nm in ("one", "zero"):
             self.ops[nm] = prog.find1(name=nm, self_adt=adt, impl_trait=TRAIT + "Semiring", unit="rsdd-lib")
 
+    def pieces(self, fn):
+        """the result of an operation as pieces [(guard-lists, components)]: one literal, or a join of literals each
+        reached under its own tests (a fast path `if x.0 == 0.0 { return ZERO }` in front of the general formula).
+        guard-lists: one list of branch facts per way of reaching the piece."""
+        te = fn.terms
+        r = strip(te.ret)
+        if r[0] == "agg" and r[2] == self.adt:
+            return [([[]], r[4])]
+        out = []
+        if r[0] == "phi":
+            for pb, v in r[2]:
+                v = strip(v)
+                if not (v[0] == "agg" and v[2] == self.adt):
+                    raise NotPoly("%s does not return a %s literal: %s" % (fn.name, self.adt, show(r)[:60]))
+                pbn = int(str(pb).replace("bb", "")) if not isinstance(pb, int) else pb
+                out.append((te.edge_guards(pbn) if len(te.cfg.pred.get(pbn, [])) > 1 else [list(te.facts_at(pbn))], v[4]))
+            return out
+        if r[0] == "gamma":
+            for lab, v in r[2]:
+                v = strip(v)
+                if not (v[0] == "agg" and v[2] == self.adt):
+                    raise NotPoly("%s does not return a %s literal: %s" % (fn.name, self.adt, show(r)[:60]))
+                out.append(([[(r[1], lab, None, None)]], v[4]))
+            return out
+        raise NotPoly("%s does not return a %s literal: %s" % (fn.name, self.adt, show(r)[:60]))
+
+    @staticmethod
+    def equations(guards):
+        """{(argno, field): constant} stated by a fact list (tests `x.f == c` that came out true)"""
+        eqs = {}
+        for c, v, _, _ in guards:
+            c = strip(c)
+            truthy = v != "0"
+            while c[0] == "un" and c[1] == "Not":
+                c, truthy = strip(c[2]), not truthy
+            if c[0] == "bin" and ((c[1] == "Eq" and truthy) or (c[1] == "Ne" and not truthy)):
+                for a, b in ((strip(c[2]), strip(c[3])), (strip(c[3]), strip(c[2]))):
+                    if a[0] == "field" and strip(a[1])[0] == "param" and b[0] == "const":
+                        eqs[(strip(a[1])[1], a[2])] = float_const(b)
+        return eqs
+
     def comps(self, fn):
-        r = strip(fn.terms.ret)
-        if not (r[0] == "agg" and r[2] == self.adt):
-            raise NotPoly("%s does not return a %s literal: %s" % (fn.name, self.adt, show(r)[:60]))
-        return r[4]
+        """components of the general formula: the piece that is not reached under an equation on an operand"""
+        ps = self.pieces(fn)
+        general = [c for gs, c in ps if any(not self.equations(g) for g in gs)]
+        if len(general) != 1:
+            raise NotPoly("%s has %d general cases" % (fn.name, len(general)))
+        return general[0]
+
+    def fast_paths(self, fn):
+        """[(equations, components)] for the pieces reached under an equation on an operand, per way of reaching them"""
+        out = []
+        for gs, c in self.pieces(fn):
+            for g in gs:
+                e = self.equations(g)
+                if e:
+                    out.append((e, c))
+        return out
 
     def apply(self, nm, x, y=None):
         fn = self.ops[nm]
@@ -188,6 +241,32 @@ def numeric_laws(prog, adt, mul_comm=True):
             detail = laws_extra if ok else "%s of %s is not its defining formula: component differs by %s" % (
                 opn, short, fmt_poly([g - w for g, w in zip(got, want) if dict(g) != dict(w)][0]))
             out.append(inst("LAW", "%s:%s-definition" % (adt, opn), OK if ok else VIOLATION, A.ops[opn], None, detail))
+    # a fast path must return what the general formula returns under the fast path's own condition
+    for opn in ("add", "mul", "sub"):
+        if opn not in A.ops:
+            continue
+        try:
+            fps = A.fast_paths(A.ops[opn])
+        except NotPoly:
+            fps = []
+        for k, (eqs, comps) in enumerate(fps, 1):
+            env = {}
+            for i, f in enumerate(A.fields):
+                env[(1, f)] = Poly.const(eqs[(1, f)]) if (1, f) in eqs else a[i]
+                env[(2, f)] = Poly.const(eqs[(2, f)]) if (2, f) in eqs else b[i]
+            try:
+                got = [to_poly(c, env) for c in comps]
+                want = [to_poly(c, env) for c in A.comps(A.ops[opn])]
+            except NotPoly as e:
+                out.append(inst("LAW", "%s:%s-fast-path#%d" % (adt, opn, k), UNDECIDED, A.ops[opn], None, str(e)))
+                continue
+            bad = [(A.fields[i], got[i], want[i]) for i in range(len(got)) if dict(got[i]) != dict(want[i])]
+            cond = ", ".join("%s.%s = %s" % ("self" if an == 1 else "rhs", f, v) for (an, f), v in sorted(eqs.items()))
+            out.append(inst("LAW", "%s:%s-fast-path#%d" % (adt, opn, k), VIOLATION if bad else OK, A.ops[opn], None,
+                            ("the shortcut of %s taken when %s returns component `%s` = %s, but the general formula gives %s "
+                             "there: the operation is no longer the %s of the semiring on those operands (laws such as "
+                             "distributivity fail)" % (opn, cond, bad[0][0], fmt_poly(bad[0][1]), fmt_poly(bad[0][2]), opn))
+                            if bad else "the shortcut taken when %s agrees with the general formula" % cond))
     for nm, lhs, rhs in laws:
         ok = all(dict(l) == dict(r) for l, r in zip(lhs, rhs)) and len(lhs) == len(rhs)
         fn = A.ops["sub"] if nm.startswith("sub") else (A.ops["add"] if nm.startswith("add") else A.ops["mul"])
